@@ -31,8 +31,8 @@ type Cfg struct {
 	SigningPeriod     uint64
 	MaxSigningAttempt uint64
 	MaxDESize         uint64
-	InitDE            uint64   // nonce pairs every member holds in the base state
-	MaxReq            int      // signings created along a path
+	InitDE            uint64 // nonce pairs every member holds in the base state
+	MaxReq            int    // signings created along a path
 	Depth             int
 	Events            []string // event kinds in the alphabet: de1 de2 reset req reqlow reqgov reqfail sig act block
 	FeePerSigner      int64
@@ -205,6 +205,9 @@ func (s *spec) Enabled(w *engine.World, ctx sdk.Context, mm engine.Model, depth 
 	if has(ev, "maxde") && s.cfg.MaxDESize > 1 {
 		out = append(out, "maxde")
 	}
+	if has(ev, "maxatt") && s.cfg.MaxSigningAttempt > 1 {
+		out = append(out, "maxatt")
+	}
 	if has(ev, "sig") {
 		for _, sg := range m.Sigs {
 			if sg.Status != "W" {
@@ -324,6 +327,16 @@ func (s *spec) Step(w *engine.World, ctx sdk.Context, mm engine.Model, ev string
 		}
 		res := w.Tx(ctx, 0, tsstypes.NewMsgUpdateParams(tssh.Authority.String(), tp))
 		st.Outcome = "period:" + res.ErrName()
+	case "maxatt":
+		// governance lowers (to 1) / restores max_signing_attempt while attempts are in flight
+		tp := tk.GetParams(ctx)
+		if tp.MaxSigningAttempt == s.cfg.MaxSigningAttempt {
+			tp.MaxSigningAttempt = 1
+		} else {
+			tp.MaxSigningAttempt = s.cfg.MaxSigningAttempt
+		}
+		res := w.Tx(ctx, 0, tsstypes.NewMsgUpdateParams(tssh.Authority.String(), tp))
+		st.Outcome = "maxatt:" + res.ErrName()
 	case "maxde":
 		// governance lowers / restores MaxDESize while queues are filled
 		tp := tk.GetParams(ctx)
@@ -676,21 +689,22 @@ func (s *spec) Step(w *engine.World, ctx sdk.Context, mm engine.Model, ev string
 				return next, st
 			}
 		}
+		maxAtt := tk.GetParams(postEnd).MaxSigningAttempt // the parameter value in force at this block end (given; changed only by the maxatt event)
 		for i := range exps {
 			sg := exps[i].sg
 			elig := s.eligible(m)
 			signing, _ := tk.GetSigning(postEnd, tss.SigningID(sg.ID))
-			if sg.Attempt+1 > s.cfg.MaxSigningAttempt || len(elig) < s.cfg.T {
+			if sg.Attempt+1 > maxAtt || len(elig) < s.cfg.T {
 				sg.Status = "F"
 				if signing.Status != tsstypes.SIGNING_STATUS_FALLEN {
 					why := "max attempts used"
-					if sg.Attempt+1 <= s.cfg.MaxSigningAttempt {
+					if sg.Attempt+1 <= maxAtt {
 						why = fmt.Sprintf("only %d eligible members", len(elig))
 					}
 					st.Violate("C10/expected-fallen", "signing %d should be FALLEN (%s) but is %s attempt %d", sg.ID, why, signing.Status, signing.CurrentAttempt)
 					return next, st
 				}
-				st.Saw("fallen:" + map[bool]string{true: "max-attempts", false: "no-members"}[sg.Attempt+1 > s.cfg.MaxSigningAttempt])
+				st.Saw("fallen:" + map[bool]string{true: "max-attempts", false: "no-members"}[sg.Attempt+1 > maxAtt])
 				continue
 			}
 			if signing.Status != tsstypes.SIGNING_STATUS_WAITING || signing.CurrentAttempt != sg.Attempt+1 {
